@@ -29,14 +29,11 @@ pub mod streaming_kzg {
     }
     // prod_{t < k} (x - pts[t])
     pub open spec fn vprod(pts: Seq<Fr>, k: nat, x: FS) -> FS decreases k { if k == 0 { f_one() } else { f_mul(vprod(pts, (k - 1) as nat, x), f_sub(x, pts[k - 1]@)) } }
-    // vanishing_polynomial (map + fold over naive_mul): the polynomial prod_j (X - point_j)   [assumed: the fold is outside the extractable subset]
-    #[verifier::external_body] pub fn vanishing_polynomial(points: &[Fr]) -> (r: Poly) ensures forall|x: FS| #[trigger] r.ev(x) == vprod(points@, points@.len(), x), r.wf(), r.coeffs@.len() == points@.len() + 1 { unimplemented!() }
-    // linear_combination (zip + map + reduce): coefficient-wise sum_i c_i * p_i over the shorter of the two lists; None if that is empty   [assumed]
+    // vanishing_polynomial, linear_combination: contracts proved in units/streaming_helpers.rs
+//@stub from=streaming_helpers.rs id=streaming.vanishing_polynomial vis=pub
     pub open spec fn cf(p: Seq<Fr>, t: int) -> FS { if 0 <= t < p.len() { p[t]@ } else { f_zero() } }
     pub open spec fn lc_cf(ps: Seq<Vec<Fr>>, cs: Seq<Fr>, k: nat, t: int) -> FS decreases k { if k == 0 { f_zero() } else { f_add(lc_cf(ps, cs, (k - 1) as nat, t), f_mul(cf(ps[k - 1]@, t), cs[k - 1]@)) } }
-    #[verifier::external_body] pub fn linear_combination(polynomials: &[Vec<Fr>], challenges: &[Fr]) -> (r: Option<Vec<Fr>>)
-        ensures (r is Some) == (min(polynomials@.len(), challenges@.len()) > 0),
-            r is Some ==> forall|t: int| #[trigger] cf(r->Some_0@, t) == lc_cf(polynomials@, challenges@, min(polynomials@.len(), challenges@.len()), t) { unimplemented!() }
+//@stub from=streaming_helpers.rs id=streaming.linear_combination vis=pub
 //@stub from=streaming.rs id=streaming.msm vis=pub
 //@stub from=streaming.rs id=streaming.powers vis=pub
     #[verifier::external_body] pub fn vec_one(len: usize) -> (r: Vec<Fr>) ensures r@.len() == len, forall|i: int| 0 <= i < len ==> (#[trigger] r@[i])@ == f_one() { unimplemented!() }
